@@ -335,7 +335,9 @@ type world struct {
 	ad            *adapter.VerifAdapter
 	gc            map[int]*gconn // adapter-driven connections whose read loop is running
 	ctx           context.Context
-	mayUnregister bool // one of two concurrently started operations removes a record without closing its stream
+	pure          bool   // only control-type logins / heartbeats / closes / kicks / sweeps: nothing that legitimately leaves an authenticated record un-indexed
+	refused       *gconn // adapter-driven accept of the current operation that was refused
+	mayUnregister bool   // one of two concurrently started operations removes a record without closing its stream
 }
 
 func cname(c int) string { return fmt.Sprintf("c%d", c) }
@@ -416,6 +418,20 @@ func universe(ops0 [][]int) (conns, clients, tunnels []int) {
 	return
 }
 
+// operations after which (on correct code) every registered, authenticated control connection with an open, working transport
+// IS the indexed connection of its client: raw registry calls that index or pre-authenticate, and tunnel-type logins, are not
+func pureOp(o []int) bool {
+	switch arg(o, 0) {
+	case opHandshake:
+		return arg(o, 4) != 0 || arg(o, 2) != 0
+	case opRegRaw, opReReg, opReRegNew:
+		return arg(o, 2) == 0
+	case opAuthRaw:
+		return false
+	}
+	return true
+}
+
 func newWorld(cfg cfgIn, ops [][]int) *world {
 	ctx, cancel := context.WithCancel(context.Background())
 	sc := &session.SessionConfig{
@@ -436,9 +452,16 @@ func newWorld(cfg cfgIn, ops [][]int) *world {
 		sm.SetNodeID("node-verif")
 	}
 	w.conns, w.clients, w.tunnels = universe(ops)
+	w.pure = true
 	for _, o := range ops {
 		if hasInj(o) {
 			w.pk = true
+			if !pureOp(injOf(o)) {
+				w.pure = false
+			}
+		}
+		if !pureOp(o) {
+			w.pure = false
 		}
 	}
 	return w
@@ -686,6 +709,7 @@ func (w *world) apply(o []int) (int, int) {
 			w.gc[c] = g
 			return 0, 0
 		case <-g.done: // AcceptConnection failed, handleConnection returned
+			w.refused = g
 			return 1, 0
 		}
 	case opAdEnd:
@@ -790,6 +814,20 @@ func (w *world) check(step int, o []int, errFlag, n int, fired bool, pre, post *
 			add("two-ids-one-conn", false, "client ids %d and %d both resolve to %s", y, x, cc.ConnID)
 		}
 		owner[cc] = x
+	}
+	// at most one live authenticated control connection per client, and it is the indexed one (histories of control logins only)
+	if w.pure {
+		for cn, cc := range post.reg {
+			t := w.tr[cn]
+			if cc.Authenticated && cc.ClientID > 0 && t != nil && !t.closed && !t.failWrites && post.idx[int(cc.ClientID)] != cc {
+				other := "nothing"
+				if o2 := post.idx[int(cc.ClientID)]; o2 != nil {
+					other = o2.ConnID
+				}
+				add("second-live-connection", false, "%s is registered, authenticated as client %d and its transport is open, but client %d resolves to %s: an older login was not evicted (control count %d)",
+					cc.ConnID, cc.ClientID, cc.ClientID, other, post.cnt[1])
+			}
+		}
 	}
 	// lists and counts agree with each other
 	if post.count != len(post.reg) || post.nList != post.count || post.cnt[1] != post.count {
@@ -906,6 +944,13 @@ func (w *world) check(step int, o []int, errFlag, n int, fired bool, pre, post *
 		if k != n {
 			add("sweep-count", false, "sweep returned %d but %d were stale", n, k)
 		}
+		// a live, fresh, indexed control connection is still the answer for its client after any sweep
+		for x, cc := range pre.idx {
+			cn := cnum(cc.ConnID)
+			if pre.reg[cn] == cc && !pre.stale[cn] && post.idx[x] != cc {
+				add("sweep-unindexed-fresh", false, "after the sweep client id %d no longer resolves to %s, which is registered, fresh and was the indexed connection", x, cc.ConnID)
+			}
+		}
 	case opHandshake:
 		if errFlag == 0 && arg(o, 2) == 0 && arg(o, 4) != 0 {
 			x := arg(o, 3)
@@ -1004,6 +1049,14 @@ func runSeq(cfg cfgIn, ops [][]int, wantObs bool) ([]stepObs, []viol) {
 			}
 		}
 		vs = append(vs, w.check(i, judged, e, n, fired, pre, post)...)
+		if g := w.refused; g != nil {
+			w.refused = nil
+			// a refused connection leaves nothing behind: in no map (failed-Accept frame check above) and its transport closed
+			// (a persistent transport is owned by its provider and is not closed by the adapter)
+			if !g.persistent && !g.t.closed {
+				vs = append(vs, viol{Step: i, Kind: "refused-not-closed", Msg: fmt.Sprintf("the adapter refused connection %s (AcceptConnection failed) but never closed its transport", g.t.id)})
+			}
+		}
 		if wantObs {
 			ob := post.obs(e, n)
 			ob.Fired = b2i(fired)
